@@ -11,6 +11,7 @@ import (
 	"encoding/binary"
 	"encoding/hex"
 	"fmt"
+	"os"
 	"runtime"
 	"sync"
 	"syscall"
@@ -72,6 +73,7 @@ type Event struct {
 
 type Sim struct {
 	RecvDelay time.Duration // every Receive call takes this long
+	WrapErrno bool          // transient failures are reported as errors that wrap the errno (os.SyscallError, %w)
 	mu        sync.Mutex
 	seq       uint32
 	plans     []Plan
@@ -167,8 +169,14 @@ func (s *Sim) Receive(nonBlocking bool, p libaudit.NetlinkParser) ([]syscall.Net
 	defer func() { s.Recvs = append(s.Recvs, rec) }()
 	switch it.K {
 	case "eintr":
+		if s.WrapErrno {
+			return nil, os.NewSyscallError("recvfrom", syscall.EINTR)
+		}
 		return nil, syscall.EINTR
 	case "eagain":
+		if s.WrapErrno {
+			return nil, fmt.Errorf("receive: %w", syscall.EAGAIN)
+		}
 		return nil, syscall.EAGAIN
 	case "fail":
 		return nil, &Err{"receive failed"}
